@@ -1711,3 +1711,26 @@ def slow_callbacks():
                 b.upd(c).write("p1", 1, [9]).adv(1).ka(c).adv(1)
                 out.append(b.tag("writer", "hold", "gate").build())
     return out
+
+
+def close_race_connect(reps=6):
+    """C05/C10: inbound connections arriving exactly while Close / DeletePeer is in progress."""
+    out = []
+    for rep in range(reps):
+        for how in ("close", "delete"):
+            for first in (0, 1):
+                ps = [peer("p1", "10.0.0.2", passive=True), peer("p2", "10.0.0.3", remoteAS=65003, passive=True)]
+                b = Sb("closerace-%s-%d-%d" % (how, first, rep), ps)
+                b.start()
+                c0 = b.establish("p2", "in", rid="10.0.0.3")
+                cs = [b.newconn() for _ in range(3)]
+                subs = [step("connect", conn=cs[0], src="10.0.0.2:40001", dst="10.0.0.1:179"),
+                        step("close") if how == "close" else step("deletePeer", peer="p1"),
+                        step("connect", conn=cs[1], src="10.0.0.2:40002", dst="10.0.0.1:179"),
+                        step("connect", conn=cs[2], src="10.0.0.3:40003", dst="10.0.0.1:179")]
+                if first:
+                    subs[0], subs[1] = subs[1], subs[0]
+                b.steps.append(multi(*subs))
+                b.adv(1).add("listPeers")
+                out.append(b.tag("stop", "closerace", "fuzz").build())
+    return out
